@@ -462,6 +462,7 @@ const nslots = 3
 type slotState struct {
 	t       *tr
 	content map[string][]byte
+	base    common.Hash // the committed root whose nodes the slot's trie may still reference
 }
 
 func copyContent(m map[string][]byte) map[string][]byte {
@@ -474,11 +475,17 @@ func copyContent(m map[string][]byte) map[string][]byte {
 
 func runHistory(o *out.Out, r *gen.Rand, c int) {
 	secure := r.Chance(1, 6)
-	fam := r.Pick(5, 3, 4, 2)
+	fam := r.Pick(5, 3, 4, 2, 0, 3)
 	if secure {
 		fam = 4
 	}
-	uni := genUniverse(r, fam)
+	var uni [][]byte
+	thrL := 0
+	if fam == 5 {
+		uni, thrL = thresholdUniverse(r)
+	} else {
+		uni = genUniverse(r, fam)
+	}
 	sec := 0
 	if secure {
 		sec = 1
@@ -508,6 +515,7 @@ func runHistory(o *out.Out, r *gen.Rand, c int) {
 		}
 		slots[i] = &slotState{t: t, content: map[string][]byte{}}
 	}
+	gc := newGC()
 	nops := 3 + r.Intn(38)
 	if *out.Tier == "thorough" && r.Chance(1, 4) {
 		nops = 20 + r.Intn(41)
@@ -568,6 +576,17 @@ func runHistory(o *out.Out, r *gen.Rand, c int) {
 			if err != nil {
 				o.Fail(step, "db-update", err.Error())
 			}
+			if root != types.EmptyRootHash {
+				// the committed root is held through the reference counter of the node database
+				if catch(func() { db.Reference(root, common.Hash{}) }) {
+					o.Fail(step, "db-update-panic", "Database.Reference panicked")
+				}
+				gc.refs[root]++
+				gc.snap[root] = copyContent(st.content)
+			}
+		}
+		if root != types.EmptyRootHash {
+			st.base = root
 		}
 		if r.Chance(1, 3) {
 			// flush to the disk layer: later reads come from disk / clean cache
@@ -588,9 +607,17 @@ func runHistory(o *out.Out, r *gen.Rand, c int) {
 		s := r.Pick(6, 2, 1)
 		st := slots[s]
 		k := uni[r.Intn(len(uni))]
-		switch r.Pick(40, 12, 6, 8, 7, 7, 4, 12) {
+		if r.Chance(1, 14) {
+			// garbage collection in the node database (no observable of its own: every later
+			// observation of every slot and the check of all referenced roots are the oracles)
+			doGC(o, r, step, db, gc, slots, secure, uni)
+		}
+		switch r.Pick(40, 12, 6, 8, 7, 7, 4, 12, 7, 9) {
 		case 0: // Update
 			v := genValue(r)
+			if fam == 5 && r.Chance(3, 4) {
+				v = thresholdValue(r, thrL)
+			}
 			if r.Chance(1, 12) {
 				v = nil // empty value deletes
 			}
@@ -685,7 +712,7 @@ func runHistory(o *out.Out, r *gen.Rand, c int) {
 					o.Fail(step, "reopen-missing", "trie.New on a committed root: "+err.Error())
 				} else {
 					res = fmt.Sprintf("r:%x", h)
-					slots[d] = &slotState{t: nt, content: copyContent(st.content)}
+					slots[d] = &slotState{t: nt, content: copyContent(st.content), base: st.base}
 				}
 			}
 			o.Count("op.reopen")
@@ -699,7 +726,7 @@ func runHistory(o *out.Out, r *gen.Rand, c int) {
 		case 6: // Copy
 			d := r.Intn(nslots)
 			if d != s {
-				slots[d] = &slotState{t: st.t.copy(), content: copyContent(st.content)}
+				slots[d] = &slotState{t: st.t.copy(), content: copyContent(st.content), base: st.base}
 			}
 			o.Count("op.copy")
 			sig += "Y"
@@ -707,6 +734,14 @@ func runHistory(o *out.Out, r *gen.Rand, c int) {
 		case 7: // Prove / VerifyProof / tampering
 			doProof(o, r, step, s, st, k, keyOf)
 			sig += "P"
+		case 8: // iterate the leaves from a start key (NodeIterator hashes the live trie first)
+			io := strings.SplitN(doIter(o, r, step, s, st, uni, keyOf), "\x00", 2)
+			sig += "I"
+			o.Op(io[0], io[1]+" "+observe(step, s))
+		case 9: // range proof over the content between two edge keys
+			io := strings.SplitN(doRange(o, r, step, s, st, uni, keyOf), "\x00", 2)
+			sig += "Q"
+			o.Op(io[0], io[1])
 		}
 	}
 	// final: fresh build from the content (the model prints the root of its canonical constructor)
@@ -939,6 +974,9 @@ func runStack(o *out.Out, r *gen.Rand, c int) {
 		}
 		if g := gethRoot(content, id); g != h {
 			o.Fail(0, "stack-vs-reference", fmt.Sprintf("StackTrie root %x, go-ethereum root %x", h, g))
+		}
+		if prefixFree {
+			stackExtras(o, r, kvs, h)
 		}
 	}
 	switch {
